@@ -68,9 +68,23 @@ def rand_assign_spec(g, allow_param=False, allow_null=True):
     return [k]
 
 
+def vary_layout(g, A):
+    """Other dtypes and memory layouts of the same matrix (part of the literal, hence of the signature)."""
+    r = g.random()
+    if r < 0.7:
+        return A
+    if r < 0.8:
+        return np.asfortranarray(A)
+    if r < 0.9:
+        return A.astype(np.float32)
+    if (A == np.round(A)).all():
+        return A.astype(np.int64)
+    return A
+
+
 def lganm_spec(g, p, seeds, force_explicit=False, force_ranges=False, dtype="<f8"):
     W = rand_dag(g, p, density=(None if p <= 12 else 3.0 / p))
-    spec = {"W": enc(W.astype(np.dtype(dtype)))}
+    spec = {"W": enc(vary_layout(g, W.astype(np.dtype(dtype))))}
     use_ranges = force_ranges or (not force_explicit and g.random() < 0.4)
     if use_ranges:
         lo = r2(g, -1, 1)
@@ -95,7 +109,7 @@ def anm_spec(g, p, allow_param=False):
     if g.random() < 0.1:        # deterministic everywhere but at one node
         keep = g.randrange(p)
         noise = [rand_noise_spec(g, allow_zero=False) if i == keep else ["noise.zero"] for i in range(p)]
-    return {"A": enc(W), "assign": [rand_assign_spec(g, allow_param) for _ in range(p)], "noise": noise}
+    return {"A": enc(vary_layout(g, W)), "assign": [rand_assign_spec(g, allow_param) for _ in range(p)], "noise": noise}
 
 
 def lganm_ivs(g, p, how=None):
